@@ -6,8 +6,8 @@ globals().update(
     make(
         pid="C16",
         extra_run=extra_run,
-        props=["JaqalProofs/Props/C16.lean", "JaqalProofs/Props/C16ParseBuild.lean", "JaqalProofs/Props/C16Builder.lean", "JaqalProofs/Props/C16Outputs.lean", "JaqalProofs/Props/C16Flags.lean"],
-        targets=["JaqalProofs.Props.C16", "JaqalProofs.Props.C16ParseBuild", "JaqalProofs.Props.C16Builder", "JaqalProofs.Props.C16Outputs", "JaqalProofs.Props.C16Flags"],
+        props=["JaqalProofs/Props/C16.lean", "JaqalProofs/Props/C16ParseBuild.lean", "JaqalProofs/Props/C16Builder.lean", "JaqalProofs/Props/C16Outputs.lean", "JaqalProofs/Props/C16Flags.lean", "JaqalProofs/Props/C16FlagsFull.lean"],
+        targets=["JaqalProofs.Props.C16", "JaqalProofs.Props.C16ParseBuild", "JaqalProofs.Props.C16Builder", "JaqalProofs.Props.C16Outputs", "JaqalProofs.Props.C16Flags", "JaqalProofs.Props.C16FlagsFull"],
         diffs=[("harness.agents.c16_diff", 150, 700), ("harness.agents.c16_edge", 150, 700), ("harness.agents.c16_combo", 120, 500), ("harness.agents.outlist_diff", 1000, 8000, {"one_readout_per_visit_in_order", "too_few_outputs_rejected"})],
         trusted=[
             STD_TRUST,
